@@ -689,6 +689,8 @@ func zzTwin(s *State, a []Value) Value {
 	return s.twinOf(a[0], 0)
 }
 
+type twinLeaf struct{ id, bits *Term }
+
 func (s *State) twinOf(v Value, depth int) Value {
 	p := s.W.Pool
 	iv := s.resolveIface(v)
@@ -724,9 +726,39 @@ func (s *State) twinOf(v Value, depth int) Value {
 		s.assume(p.Not(p.App("fp.isNaN", SortBool, f)))
 		s.assume(p.Not(p.App("fp.isInfinite", SortBool, f)))
 		s.assume(p.Not(p.Eq(bits, p.BVConst(0x8000000000000000, 64))))
-		id := p.App("bv2nat", SortInt, bits)
+		// spelling identity: a fresh Int per leaf; shortest formatting means
+		// equal spelling <=> equal bits, stated pairwise over the twin's leaves
+		id := p.Var("twin!"+bits.Name, SortInt)
+		for _, other := range s.twinLeaves {
+			s.assume(p.Eq(p.Eq(id, other.id), p.Eq(bits, other.bits)))
+		}
+		s.twinLeaves = append(s.twinLeaves[:len(s.twinLeaves):len(s.twinLeaves)], twinLeaf{id: id, bits: bits})
 		s.assume(p.Eq(p.UF("numbits", BV(64), id), bits))
 		return Iface{T: s.W.P.tNumber, V: &AbsStr{Id: id}}
 	}
 	return iv
+}
+
+func init() { intrinsics["zzHoleBytes"] = zzHoleBytes }
+
+func zzHoleBytes(s *State, a []Value) Value {
+	path := s.strArg(a[0])
+	positions := s.strArg(a[1])
+	name := s.strArg(a[2])
+	if positions == "" {
+		return path
+	}
+	ss := toSymStr(path)
+	p := s.W.Pool
+	for _, ps := range strings.Split(positions, ",") {
+		i, err := strconv.Atoi(ps)
+		if err != nil || i < 0 || i >= len(ss.B) {
+			s.abort("zzHoleBytes: bad position %q", ps)
+		}
+		t := p.Var(fmt.Sprintf("byte!%s[%d]", name, i), BV(8))
+		s.assume(p.App("bvult", SortBool, t, p.BVConst(128, 8)))
+		ss.B[i] = t
+		s.holes[fmt.Sprintf("in:byte:%s[%d]", name, i)] = t
+	}
+	return ss
 }
